@@ -147,6 +147,14 @@ func main() {
 		if rng.Intn(4) == 0 {
 			preAnn["org.example.reviewed"] = "" // an annotation with an empty value is still an annotation of the artifact
 		}
+		if !onDisk && rng.Intn(3) == 0 {
+			// well-known annotation keys are annotations like any other: what the repository resolved is what gets signed
+			preAnn[ocispec.AnnotationRefName] = "v1"
+			if rng.Bool() {
+				preAnn[ocispec.AnnotationTitle] = "thing.tar"
+			}
+			r.Event("resolved-descriptors-with-well-known-annotation-keys")
+		}
 		if len(preAnn) == 0 && rng.Bool() {
 			preAnn = nil
 		}
@@ -244,7 +252,7 @@ func main() {
 			if strings.Contains(o.Ref, "digest") {
 				existingKeys = keysOf(snaps[artifact.Digest.String()])
 			}
-			kinds := []string{"none", "disjoint", "disjoint", "reserved", "mixed-reserved"}
+			kinds := []string{"none", "disjoint", "disjoint", "reserved", "mixed-reserved", "disjoint-empty-value"}
 			if len(existingKeys) > 0 {
 				kinds = append(kinds, "colliding", "mixed-colliding")
 			}
@@ -252,6 +260,8 @@ func main() {
 			switch o.MetaKind {
 			case "disjoint":
 				o.Metadata = map[string]string{"buildId": fmt.Sprint(rng.Intn(100)), "commit": "abc"}
+			case "disjoint-empty-value": // a flag-like entry (reviewed=): an empty value is a value, the key is signed
+				o.Metadata = [](map[string]string){{"reviewed": ""}, {"buildId": "7", "reviewed": ""}, {"": "empty-key"}, {"a": "", "b": ""}}[rng.Intn(4)]
 			case "colliding":
 				o.Metadata = map[string]string{existingKeys[rng.Intn(len(existingKeys))]: "overwritten"}
 			case "mixed-colliding":
@@ -416,7 +426,40 @@ func main() {
 			if aDesc.Digest != resolvedSnap.Digest || aDesc.Size != resolvedSnap.Size {
 				r.Violation(sig("returned-descriptor"), "SignOCI returned another artifact descriptor", wit)
 			}
-			_ = sDesc
+			if onDisk {
+				// the signature as it lies in the layout: its signed payload is the resolved descriptor (with the layout's own
+				// ref.name annotation when a tag was resolved) plus the caller's metadata
+				found := false
+				lerr := repo.ListSignatures(ctx, resolvedSnap, func(ms []ocispec.Descriptor) error {
+					for _, m := range ms {
+						if m.Digest != sDesc.Digest {
+							continue
+						}
+						found = true
+						blob, _, ferr := repo.FetchSignatureBlob(ctx, m)
+						if ferr != nil {
+							return ferr
+						}
+						content, verr := lib.RefVerify(o.Format, blob)
+						if verr != nil {
+							r.Violation(sig("pushed-signature-invalid"), "the signature stored in the layout does not verify: "+verr.Error(), wit)
+							return nil
+						}
+						var payload struct {
+							TargetArtifact ocispec.Descriptor `json:"targetArtifact"`
+						}
+						json.Unmarshal(content.Payload.Content, &payload)
+						r.Event("stored-payloads-decoded-from-the-layout")
+						if payload.TargetArtifact.Digest != resolvedSnap.Digest || payload.TargetArtifact.Size != resolvedSnap.Size || payload.TargetArtifact.MediaType != resolvedSnap.MediaType || !sameMap(payload.TargetArtifact.Annotations, wantAnn) {
+							r.Violation(sig("signed-payload"), fmt.Sprintf("the signature stored in the layout signs %v with annotations %v, expected the resolved %v with %v", payload.TargetArtifact.Digest, payload.TargetArtifact.Annotations, resolvedSnap.Digest, wantAnn), wit)
+						}
+					}
+					return nil
+				})
+				if lerr != nil || !found {
+					r.Violation(sig("pushed-signature-missing"), fmt.Sprintf("the signature manifest %s SignOCI returned is not listed for the artifact (err=%v)", sDesc.Digest, lerr), wit)
+				}
+			}
 			if mem != nil {
 				if len(mem.pushes) != nPush+1 {
 					r.Violation(sig("push-count"), fmt.Sprintf("%d signatures pushed by one call", len(mem.pushes)-nPush), wit)
